@@ -34,6 +34,10 @@ RULE = ("the generated engines of C14 with arbitrary finite double term / range 
         "(variables, terms, rule blocks, rules, norms, hedges, defuzzifiers, activation methods) on its own.  non-trivial: "
         "the representation drops a field, uses keywords after a dropped positional parameter, or carries nan / inf; "
         "distinct = distinct (object, alias, mode)")
+RULE += (" Layout family (drawn after the engines above): sizes at and beyond every default abbreviation limit of reprlib (5..40 "
+         "substitution variables, also array-valued; 5..200 pairs; 6..11 coefficients with as many input variables; up to 20 terms, 30 "
+         "rules, 9 blocks; texts of 30..400 characters; integers of 40..48 digits), Discrete pairs descending / shuffled / repeated, "
+         "terms built by constructor (list, array), configure, attribute assignment, Discrete.create and the FLL importer.")
 ASSUMPTIONS = ["executing Python source, repr(float) / repr(str) round-tripping and black are the interpreter's (sampled, not modelled)",
                "rules stay enabled (Rule.__repr__ is Rule.create('text')); rule weights are compared after one print cycle",
                "outputs are compared bit-for-bit only when heights are 1 or outside the tolerance and weights are representable at "
@@ -408,6 +412,42 @@ def engine_cases(ctx):
         yield case
 
 
+def layout_cases(ctx):
+    """the quantifier says "all generated engines": no bound on sizes, no order on the pairs of a Discrete term, no
+    particular way in which the engine was put together.  Engines as above, then
+    * `G.enlarge`: dict / array / list / string / integer sizes at and beyond the defaults at which `reprlib` abbreviates
+      (4, 5, 6, 30, 40), up to 40 substitution variables, 200 pairs, 30 rules, 400 characters;
+    * `G.discrete_layouts`: pairs descending / shuffled / with a repeated abscissa, each Discrete term built through one of
+      the construction paths (flat list, array, configure, attribute, the three forms of Discrete.create), other terms
+      through configure; `origin: fll` adds the path through the FuzzyLite Language importer.
+    The same oracle as every engine case (executes the exported source; repr, FLL and outputs of the rebuilt engine)."""
+    rng = ctx.rng
+    n = ctx.scale(24, 300)
+    for i in range(n):
+        d = 1 + (i % 9)
+        spec = G.gen_engine_spec(rng, d, mode="float", representable=False, size="small",
+                                 force_terms=["Discrete"] if i % 2 else ["Function", "Discrete"])
+        for v in spec["inputs"] + spec["outputs"]:      # outputs comparable: heights 1 or far from 1, weights on the grid
+            for t in v["terms"]:
+                if "height" in t:
+                    t["height"] = G.fhex(G.height_pool(rng, d, True))
+        for b in spec["blocks"]:
+            for r in b["rules"]:
+                r["weight"] = G.fhex(G.height_pool(rng, d, True))
+        layout = []
+        if i % 3 != 2:
+            layout += G.enlarge(rng, spec, d, "float")
+        if i % 3 != 1:
+            G.discrete_layouts(rng, spec, d, "float")
+            layout.append("pairs-and-paths")
+        rows = G.input_rows(rng, spec, ctx.scale(3, 6))
+        case = {"kind": "engine", "decimals": d, "spec": spec, "rows": rows, "alias": ALIASES[i % 4],
+                "mode": "plain" if i % 3 else "encapsulated", "formatted": i % 4 == 1 and HAVE_BLACK, "layout": layout}
+        if i % 4 >= 2:
+            case["origin"] = "fll"
+        yield case
+
+
 def switched(case, i):
     """the same case after the alias was switched by assignment from another one"""
     others = [a for a in ALIASES if a != case["alias"]]
@@ -448,7 +488,9 @@ def correspond(ctx):
                 violation(case, f"corpus case {os.path.basename(path)}: {detail}")
     tol = G.nstr(float(fl.settings.atol) + float(fl.settings.rtol))
     n_full = 0
-    for ci, case in enumerate(engine_cases(ctx)):
+
+    def engine_case(ci, case):
+        nonlocal n_full
         d, spec = case["decimals"], case["spec"]
         # property oracle: this variant for the engine, every variant for a sub-stream, components in one variant
         todo = [case]
@@ -460,6 +502,10 @@ def correspond(ctx):
         if ci % 3 == 0:
             todo.append(switched(case, ci))
             todo.append(switched(comp, ci + 1))
+        if case.get("layout") and case.get("origin"):
+            # what the FuzzyLite Language does not carry (substitution variables, the way a term was built) exists only in
+            # the engine as built: that one is exported too
+            todo.append({k: v for k, v in case.items() if k != "origin"})
         failed = False
         for c in todo:
             ok, detail = oracle(c)
@@ -470,28 +516,43 @@ def correspond(ctx):
                 failed = True
                 break
         if failed:
-            continue
+            return
         # model comparison: repr of the engine and of every component under this alias; evaluation result
         fragile = G.spec_is_fragile(spec, d)
         if fragile:
             st.skipped_fragile += 1
-            continue
+            return
         with fl.settings.context(decimals=d, alias=case["alias"]), np.errstate(all="ignore"):
             e = G.build(spec)
             objs = [e] + components(e) + [fl.Very(), fl.Not()]
             for oi, x in enumerate(objs):
                 r0 = repr(x)
+                sub = dict(case, kind="component", index=oi - 1) if 0 < oi <= len(objs) - 3 else dict(case)
+                try:
+                    y = eval(r0, namespace())  # noqa: S307
+                except Exception as ex:  # noqa: BLE001
+                    # the representation of the engine as built (not re-imported) does not evaluate: the oracle decides
+                    sub.pop("origin", None)
+                    mism.append({"case": sub, "impl": r0[:300], "model": None,
+                                 "what": f"repr of a {type(x).__name__} does not evaluate: {type(ex).__name__}: {str(ex)[:120]}"})
+                    break
                 if isinstance(x, fl.Rule):
                     val = to_val([x])      # a rule is a leaf of the model: wrap it
                     real_repr = "[" + r0 + "]"
-                    y = [eval(r0, namespace())]  # noqa: S307
+                    y = [y]
                 else:
                     val = to_val(x)
                     real_repr = r0
-                    y = eval(r0, namespace())  # noqa: S307
-                sub = dict(case, kind="component", index=oi - 1) if 0 < oi <= len(objs) - 3 else dict(case)
                 ask(["py-repr", C.hexs(case["alias"]), d, tol, val], ("repr", sub, real_repr, type(x).__name__))
                 ask(["py-eval", C.hexs(case["alias"]), d, tol, val], ("eval", sub, C.parse_sx(C.sx(to_val(y))), type(x).__name__))
+
+    for ci, case in enumerate(engine_cases(ctx)):
+        engine_case(ci, case)
+    # "every engine": sizes at and beyond the points where a generic representation abbreviates, Discrete terms with pairs
+    # in any order, terms built through every construction path (drawn after the engines above)
+    for ci, case in enumerate(layout_cases(ctx)):
+        st.count("engine-layout:" + ",".join(case.get("layout", [])))
+        engine_case(0 if ci % 8 == 0 else 6 * ci + 1, case)      # every 8th: all alias / mode / formatting variants
     ctx.notes["engines_with_all_variants"] = n_full
     probes(ctx)
     outs = ctx.driver.eval(lines)
@@ -564,7 +625,8 @@ def shrink(case):
 
 
 def search(ctx):
-    for case in engine_cases(ctx):
+    import itertools
+    for case in itertools.chain(engine_cases(ctx), layout_cases(ctx)):
         for c in variants(case):
             ok, d = oracle(c)
             if not ok:
